@@ -208,18 +208,78 @@ STENCILS = {
 }
 
 
+def delegating_variant(ctx, mod, f, fname, label, body, node, key0, analysed):
+    """a variant without a loop of its own that combines other variants of the same method, e.g. 0.5 * (self.deriv('forward') +
+    self.deriv('backward')).  The result is undefined wherever one of the combined variants is undefined, i.e. wherever any timeslice of
+    *their* stencils is undefined; the combined stencil is the linear combination of theirs.  A timeslice that is needed (guarded by a
+    part) but has coefficient zero in the combination makes the result undefined where the documented formula is defined."""
+    calls = [c for s_ in body for c in walk(s_) if isinstance(c, ast.Call) and isinstance(c.func, ast.Attribute) and c.func.attr == fname and unparse(c.func.value) == 'self'
+             and c.args and isinstance(c.args[0], ast.Constant)]
+    if not calls or any(c.args[0].value not in analysed for c in calls):
+        return False
+    # the combination as a linear form in the delegated variants
+    syms = {c.args[0].value: sp.Symbol('V_' + c.args[0].value) for c in calls}
+    expr_stmt = next((s_ for s_ in body if isinstance(s_, (ast.Assign, ast.Return)) and any(c in list(walk(s_)) for c in calls)), None)
+    if expr_stmt is None:
+        return False
+
+    def tr(e):
+        if isinstance(e, ast.Call) and e in calls:
+            return syms[e.args[0].value]
+        if isinstance(e, ast.Constant) and isinstance(e.value, (int, float)) and not isinstance(e.value, bool):
+            return sp.nsimplify(e.value, rational=True)
+        if isinstance(e, ast.UnaryOp) and isinstance(e.op, ast.USub):
+            return -tr(e.operand)
+        if isinstance(e, ast.BinOp) and isinstance(e.op, (ast.Add, ast.Sub, ast.Mult, ast.Div)):
+            a, b = tr(e.left), tr(e.right)
+            return {ast.Add: lambda: a + b, ast.Sub: lambda: a - b, ast.Mult: lambda: a * b, ast.Div: lambda: a / b}[type(e.op)]()
+        raise Unrecognised('combination %s' % unparse(e))
+    try:
+        comb = sp.expand(tr(expr_stmt.value))
+        coef = {}
+        guards = set()
+        for v, sym in syms.items():
+            w = comb.coeff(sym)
+            br = analysed[v]
+            for k_, c_ in coefficients(mod, br['expr']).items():
+                coef[k_] = coef.get(k_, 0) + w * c_
+            guards |= set(br['guards'])
+        if sp.simplify(comb - sum(comb.coeff(sym) * sym for sym in syms.values())) != 0:
+            return False
+    except (Unrecognised, KeyError):
+        return False
+    refs = {k_ for k_, c_ in coef.items() if sp.simplify(c_) != 0}
+    extra = guards - refs
+    ctx.check('C15-D1', key0 + '#guard=reference', not extra and refs <= guards, 'the combination of %s is undefined exactly where a timeslice of its own stencil %s is undefined' % (sorted(syms), sorted(refs)),
+              'the %s variant is computed from the variants %s: it is undefined wherever one of timeslices t%s is undefined, but its stencil %s does not reference t%s - the result is lost at '
+              'timeslices where the documented formula is defined' % (label, sorted(syms), sorted(guards), dict(sorted((k_, v_) for k_, v_ in coef.items() if sp.simplify(v_) != 0)), sorted(extra)), mod.loc(node))
+    try:
+        d, p = STENCILS[(fname, label)]
+        bad = [m_ for m_ in range(0, d + p) if sp.simplify(sum(c_ * sp.Integer(k_) ** m_ for k_, c_ in coef.items()) - (sp.factorial(d) if m_ == d else 0)) != 0]
+        ctx.check('C15-D2', key0 + '#stencil', not bad, 'combined stencil %s is the documented derivative' % dict(sorted(coef.items())), 'combined stencil %s violates the moment conditions %s' % (dict(sorted(coef.items())), bad), mod.loc(node))
+    except KeyError:
+        pass
+    return True
+
+
 def derivs(ctx, mod):
     n = 0
     for fname in ('deriv', 'second_deriv'):
         f = mod.func('Corr.' + fname)
-        for label, body, node in variant_branches(mod, f):
+        analysed = {}
+        branches = list(variant_branches(mod, f))
+        # variants with a loop of their own first: a variant that is computed from other variants is decided from their stencils
+        branches.sort(key=lambda b_: 0 if any(isinstance(x, ast.For) for x in b_[1]) else 1)
+        for label, body, node in branches:
             key0 = 'correlators.py:Corr.%s[%s]' % (fname, label)
             n += 1
             try:
                 br = analyse_branch(mod, body)
             except Unrecognised as e:
-                ctx.unrec('C15-D1', key0, str(e), mod.loc(node))
+                if not delegating_variant(ctx, mod, f, fname, label, body, node, key0, analysed):
+                    ctx.unrec('C15-D1', key0, str(e), mod.loc(node))
                 continue
+            analysed[label] = br
             if label == 'log':
                 # log(C) then a derivative of the log correlator times C: guard = {0} and value test C<=0, reference {0}
                 ok = br['guards'] == {0} and br['refs'] == {0}
@@ -388,6 +448,7 @@ def run(ctx):
 
 
 SELFTEST = [
+    ('symmetric-from-forward-and-backward', 'pyerrors/correlators.py', '            newcontent = []\n            for t in range(1, self.T - 1):\n                if (self.content[t - 1] is None) or (self.content[t + 1] is None):\n                    newcontent.append(None)\n                else:\n                    newcontent.append(0.5 * (self.content[t + 1] - self.content[t - 1]))\n            if (all([x is None for x in newcontent])):\n                raise ValueError(\'Derivative is undefined at all timeslices\')\n            return Corr(newcontent, padding=[1, 1])\n        elif variant == "forward":', '            res = 0.5 * (self.deriv("forward") + self.deriv("backward"))\n            if (all([x is None for x in res.content])):\n                raise ValueError(\'Derivative is undefined at all timeslices\')\n            return res\n        elif variant == "forward":', 'C15-D1'),
     ('benign-zip-slices', 'pyerrors/correlators.py', '            for t in range(1, self.T - 1):\n                if (self.content[t - 1] is None) or (self.content[t + 1] is None):\n                    newcontent.append(None)\n                else:\n                    newcontent.append(0.5 * (self.content[t + 1] - self.content[t - 1]))\n            if (all([x is None for x in newcontent])):\n                raise ValueError(\'Derivative is undefined at all timeslices\')\n            return Corr(newcontent, padding=[1, 1])\n        elif variant == "forward":', '            for before, after in zip(self.content[:-2], self.content[2:]):\n                if before is None or after is None:\n                    newcontent.append(None)\n                else:\n                    newcontent.append(0.5 * (after - before))\n            if (all([x is None for x in newcontent])):\n                raise ValueError(\'Derivative is undefined at all timeslices\')\n            return Corr(newcontent, padding=[1, 1])\n        elif variant == "forward":', 'BENIGN'),
     ('zip-slices-wrong-offset', 'pyerrors/correlators.py', '            for t in range(1, self.T - 1):\n                if (self.content[t - 1] is None) or (self.content[t + 1] is None):\n                    newcontent.append(None)\n                else:\n                    newcontent.append(0.5 * (self.content[t + 1] - self.content[t - 1]))\n            if (all([x is None for x in newcontent])):\n                raise ValueError(\'Derivative is undefined at all timeslices\')\n            return Corr(newcontent, padding=[1, 1])\n        elif variant == "forward":', '            for before, after in zip(self.content[:-2], self.content[1:-1]):\n                if before is None or after is None:\n                    newcontent.append(None)\n                else:\n                    newcontent.append(0.5 * (after - before))\n            if (all([x is None for x in newcontent])):\n                raise ValueError(\'Derivative is undefined at all timeslices\')\n            return Corr(newcontent, padding=[1, 1])\n        elif variant == "forward":', 'C15-D1'),
     ('zip-slices-wrong-padding', 'pyerrors/correlators.py', '            for t in range(1, self.T - 1):\n                if (self.content[t - 1] is None) or (self.content[t + 1] is None):\n                    newcontent.append(None)\n                else:\n                    newcontent.append(0.5 * (self.content[t + 1] - self.content[t - 1]))\n            if (all([x is None for x in newcontent])):\n                raise ValueError(\'Derivative is undefined at all timeslices\')\n            return Corr(newcontent, padding=[1, 1])\n        elif variant == "forward":', '            for before, after in zip(self.content[:-2], self.content[2:]):\n                if before is None or after is None:\n                    newcontent.append(None)\n                else:\n                    newcontent.append(0.5 * (after - before))\n            if (all([x is None for x in newcontent])):\n                raise ValueError(\'Derivative is undefined at all timeslices\')\n            return Corr(newcontent, padding=[0, 2])\n        elif variant == "forward":', 'C15-D1'),
